@@ -194,6 +194,7 @@ type genCfg struct {
 	freeze   bool    // may freeze dictionary structs before handing them to Set<Field>
 	maxDepth int
 	maxLen   int
+	deep     bool // prefer composite oneof alternatives and non-empty containers above maxDepth (frozen section)
 }
 
 // fill sets up a freshly created object through its public API. It never shrinks a slice and never
@@ -237,6 +238,16 @@ func fill(p reflect.Value, t *ty, r *rng.R, c *genCfg, depth int) {
 			}
 			ps = append(ps, 0)
 			k = ps[r.Intn(len(ps))]
+		} else if c.deep && r.Chance(3, 4) {
+			var cs []int
+			for i, f := range t.fields {
+				if !f.t.prim() {
+					cs = append(cs, i+1)
+				}
+			}
+			if len(cs) > 0 {
+				k = cs[r.Intn(len(cs))]
+			}
 		}
 		if k == 0 {
 			return
@@ -254,6 +265,8 @@ func fill(p reflect.Value, t *ty, r *rng.R, c *genCfg, depth int) {
 		n := r.Intn(c.maxLen + 1)
 		if depth >= c.maxDepth && !t.elem.prim() {
 			n = r.Intn(2)
+		} else if c.deep && n == 0 {
+			n = 1
 		}
 		if t.elem.prim() {
 			m := meth(p, "Append")
@@ -270,6 +283,8 @@ func fill(p reflect.Value, t *ty, r *rng.R, c *genCfg, depth int) {
 		n := r.Intn(c.maxLen + 1)
 		if depth >= c.maxDepth {
 			n = r.Intn(2)
+		} else if c.deep && n == 0 {
+			n = 1
 		}
 		call(p, "EnsureLen", reflect.ValueOf(n))
 		for i := 0; i < n; i++ {
